@@ -14,7 +14,7 @@ import lingo_gen as L
 from lingo_gen import S, sx
 
 PROP = "C02"
-LEAN_MODULES = ["DrxProps.C02", "DrxProps.C02Link"]
+LEAN_MODULES = ["DrxProps.C02", "DrxProps.C02b", "DrxProps.C02Link"]
 FAMILIES = ["lspec"]
 RULE = ("programs are generated as source trees (lean/Drx/Spec/Ast.lean), compiled by the Lean compile scheme (validated against the 70 "
         "fixtures every run: coverage.scheme_validation), decompiled by the real code, and the emitted text is read back by the Lean "
